@@ -370,12 +370,24 @@ def panic_sites(F, b, v):
     return out
 
 
+def in_async(F, b):
+    """closures / coroutine bodies of an async fn (the asynchronous path is C20's scope)"""
+    x = b
+    n = 0
+    while x is not None and x.owner and n < 6:
+        x = F.fns.get(x.owner)
+        n += 1
+        if x is not None and "async" in x.name:
+            return True
+    return False
+
+
 def r4_panics(ctx, F, table):
     rows = table["panic_sites"]
     total = 0
     gen = {}
     for k, b in sorted(F.fns.items()):
-        if not in_scope(k) or "async_io" in k or "async" in b.name:
+        if not in_scope(k) or "async_io" in k or "async" in b.name or in_async(F, b):
             continue
         v = vf.VF(b)
         sites = panic_sites(F, b, v)
